@@ -1,4 +1,5 @@
 import GrmVerif.Lemmas.Header2
+import GrmVerif.Lemmas.YaccParse4
 /-!
 # C12 — specification parsers are total: a result or located errors, never crash or hang
 
@@ -8,8 +9,14 @@ boundary or out of range is `Res.panic`; every loop and the recursion of `parse_
 `Res.fuelOut` = did not finish. `parse src required` hands out `|src| + 1` units of fuel.
 Helper lemmas: `GrmVerif/Lemmas/Header.lean`, `Header2.lean`. All statements are for every text.
 
-The yacc and lex parsers are not modelled here; for them the check is differential only
-(see `tools/propcfg/C12.py`).
+The second half of the file is about the yacc text parser `YaccParser::parse`
+(`cfgrammar/src/lib/yacc/parser.rs`), modelled in `GrmVerif/Model/YaccParse.lean` (control flow and
+positions of `parse`, `parse_declarations`, `parse_rules`, `parse_rule`, `parse_programs` and all
+their helpers; the three `YaccKind`s the control flow distinguishes). Helper lemmas:
+`GrmVerif/Lemmas/YaccParse.lean` … `YaccParse4.lean`.
+
+The lex parser and `GrammarAST::complete_and_validate` are not modelled here; for them the check is
+differential only (see `tools/propcfg/C12.py`).
 -/
 namespace GrmVerif.C12
 open GrmVerif.Header
@@ -90,6 +97,94 @@ theorem outcome_checker_correct (src : List Char) (o : Outcome) : outcomeOKb src
   | errors errs =>
     simp only [outcomeOKb, OutcomeOK, Bool.and_eq_true, Bool.not_eq_true', List.all_eq_true,
       span_checker_correct, List.isEmpty_eq_false_iff, ne_eq]
+
+/-! ## The yacc text parser
+
+`YaccParse.parse src kind` is `YaccParser::new(kind, src).parse()` followed by `build()`: the result
+`Ok(pos)` / `Err(errs)` paired with the AST built so far. In the model
+* `Res.panic` = a slice `&src[i..]`/`&src[a..b]` out of range, off a character boundary or with
+  `a > b`; `Span::new(a, b)` with `b < a`; `chars().next().unwrap()` at the end of the text; the
+  `unwrap` of `lookahead_is("%%", i)` in `parse_rules`; `self.rules[&rule_name]` in `add_prod` for a
+  rule that was not added; `e.spans[0]` in `add_duplicate_occurrence`; `assert!(m.end() > 0)`; the
+  three `debug_assert!`s;
+* `Res.fuelOut` = some loop did not finish within the fuel: EVERY loop instance (the declarations
+  loop, the five token/symbol loops inside declarations, the rules loop, the production loop, and the
+  character loops of `parse_to_eol`, `parse_int`, `parse_string`, `parse_to_single_colon`,
+  `parse_action`) is handed `fuel` units and spends one per iteration; `parse` hands out
+  `|src| + 1` (bytes). The fuel bounds each loop instance, not the total work.
+All statements are for every text and each of the three kinds. -/
+
+section Yacc
+open GrmVerif.YaccParse
+
+/-- **Totality.** For every text and kind the parser returns `Ok` or a NON-EMPTY list of errors. -/
+theorem yacc_total (src : List Char) (kind : Kind) :
+    (∃ pos ast, YaccParse.parse src kind = .ok (pos, ast)) ∨
+    (∃ errs ast, YaccParse.parse src kind = .err (errs, ast) ∧ errs ≠ []) := by
+  have h := YaccParse.parseWith_sat (src := src) (kind := kind) (fuel := byteLen src + 1) (by omega)
+  unfold YaccParse.parse
+  cases hr : YaccParse.parseWith src kind (byteLen src + 1) with
+  | ok a => exact Or.inl ⟨a.1, a.2, rfl⟩
+  | err e => rw [hr] at h; exact Or.inr ⟨e.1, e.2, rfl, h.1⟩
+  | panic => rw [hr] at h; exact h.elim
+  | fuelOut => rw [hr] at h; exact h.elim
+
+/-- **No panic** (see the list of modelled panics above), on any text, for every kind. -/
+theorem yacc_no_panic (src : List Char) (kind : Kind) : YaccParse.parse src kind ≠ .panic := by
+  rcases yacc_total src kind with ⟨p, a, h⟩ | ⟨e, a, h, _⟩ <;> simp [h]
+
+/-- **Termination.** `|src| + 1` units of fuel per loop instance always suffice: every iteration of
+every loop consumes at least one byte of the text or ends the loop. -/
+theorem yacc_terminates (src : List Char) (kind : Kind) : YaccParse.parse src kind ≠ .fuelOut := by
+  rcases yacc_total src kind with ⟨p, a, h⟩ | ⟨e, a, h, _⟩ <;> simp [h]
+
+/-- any amount of fuel above `|src|` does: the verdict "finished without panic" does not depend on it -/
+theorem yacc_any_larger_fuel (src : List Char) (kind : Kind) (fuel : Nat) (h : byteLen src < fuel) :
+    YaccParse.parseWith src kind fuel ≠ .fuelOut ∧ YaccParse.parseWith src kind fuel ≠ .panic := by
+  have hs := YaccParse.parseWith_sat (src := src) (kind := kind) (fuel := fuel) h
+  cases hr : YaccParse.parseWith src kind fuel <;> rw [hr] at hs <;> first | exact hs.elim | simp
+
+/-- **Error spans.** The error list is not empty; every error (the `Duplicate…` ones with all their
+occurrences, the ones forwarded from the `%grmtools` section included) carries at least one span,
+and every span satisfies `start ≤ end ≤ |src|` with both ends on character boundaries. -/
+theorem yacc_error_spans_wf (src : List Char) (kind : Kind) (errs : List YErr) (ast : Ast)
+    (h : YaccParse.parse src kind = .err (errs, ast)) :
+    errs ≠ [] ∧ ∀ e ∈ errs, e.spans ≠ [] ∧ ∀ sp ∈ e.spans, SpanWF src sp := by
+  have hs := YaccParse.parseWith_sat (src := src) (kind := kind) (fuel := byteLen src + 1) (by omega)
+  unfold YaccParse.parse at h
+  rw [h] at hs
+  exact ⟨hs.1, fun e he => ⟨(hs.2.1 e he).1, fun sp hsp => ((hs.2.1 e he).2 sp hsp).wf⟩⟩
+
+/-- **Result position.** On `Ok(pos)` the position is a character boundary within the text. -/
+theorem yacc_result_pos_wf (src : List Char) (kind : Kind) (pos : Nat) (ast : Ast)
+    (h : YaccParse.parse src kind = .ok (pos, ast)) : IsBoundary src pos ∧ pos ≤ byteLen src := by
+  have hs := YaccParse.parseWith_sat (src := src) (kind := kind) (fuel := byteLen src + 1) (by omega)
+  unfold YaccParse.parse at h
+  rw [h] at hs
+  exact ⟨(valid_iff_boundary _ _).1 hs.1, hs.1.le⟩
+
+/-- **AST spans.** Whatever `parse` returns, every span stored in the AST it built (start rule, rule
+names, production spans, symbols, tokens, precedences, `%avoid_insert`, `%implicit_tokens`, `%epp`
+keys and values, `%expect`, `%expect-rr`, `%expect-unused`) is well-formed. These are the only spans
+`complete_and_validate` and `warnings()` put into the errors and warnings they create (besides
+`Span::new(0, 0)`); action spans are not part of the model (C10 finding). -/
+theorem yacc_ast_spans_wf (src : List Char) (kind : Kind) :
+    (∀ pos ast, YaccParse.parse src kind = .ok (pos, ast) → ∀ sp ∈ ast.spans, SpanWF src sp) ∧
+    (∀ errs ast, YaccParse.parse src kind = .err (errs, ast) → ∀ sp ∈ ast.spans, SpanWF src sp) := by
+  have hs := YaccParse.parseWith_sat (src := src) (kind := kind) (fuel := byteLen src + 1) (by omega)
+  unfold YaccParse.parse
+  constructor
+  · intro pos ast h sp hsp
+    rw [h] at hs
+    exact (hs.2.spans sp hsp).wf
+  · intro errs ast h sp hsp
+    rw [h] at hs
+    exact (hs.2.2.spans sp hsp).wf
+
+/-- test: the hypothesis of `yacc_error_spans_wf` is satisfiable (a header error is forwarded) -/
+example : ∃ errs ast, YaccParse.parse "%grmtools".toList .grmtools = .err (errs, ast) := ⟨_, _, rfl⟩
+
+end Yacc
 
 /-! The witnesses of the two repaired defects (`%grmtools{a: [`, `%grmtools{a: 99999999999999999999999}`)
 and accepted sections are evaluated on the compiled model by the driver on every run (corpus/C12),
